@@ -90,6 +90,13 @@ type G struct {
 	// least one partition spends between its START and END stamps (the
 	// application "finishing its work" on what it loses).
 	RevokeWork time.Duration
+	// InCallback, if set, runs inside every stamped callback right after its
+	// START stamp (callbacks that call back into the client).
+	InCallback func(member, kind string, cl *kgo.Client, parts []TP)
+	// Gen is the state of a generated-family execution (gen.go).
+	Gen *genState
+	// Deleted names topics the environment deleted.
+	Deleted map[string]bool
 
 	mu       sync.Mutex
 	seq      int64
@@ -127,8 +134,22 @@ func ClusterOpts(topics map[string]int32) []kfake.Opt {
 // New creates the cluster (one broker: connection names must not depend on
 // which member the balancer happens to favour) and the log.
 func New(x *netctl.Exec, proto Proto, topics map[string]int32) *G {
+	return NewN(x, proto, topics, 1)
+}
+
+// NewN is New with a broker count and extra cluster options. With more than
+// one broker every partition is led by broker 0 (connection names must not
+// depend on the assignment); the other brokers only matter as coordinators.
+func NewN(x *netctl.Exec, proto Proto, topics map[string]int32, brokers int, extra ...kfake.Opt) *G {
 	g := &G{X: x, Proto: proto, clients: map[string]*kgo.Client{}, subs: map[string]map[string]bool{}, id2t: map[[16]byte]string{}, notify: make(chan struct{})}
-	g.C = x.Cluster(1, ClusterOpts(topics)...)
+	g.C = x.Cluster(brokers, append(ClusterOpts(topics), extra...)...)
+	if brokers > 1 {
+		for t, n := range topics {
+			for p := int32(0); p < n; p++ {
+				g.C.MoveTopicPartition(t, p, 0)
+			}
+		}
+	}
 	g.quit = make(chan struct{})
 	x.OnCleanup(g.shutdown) // cleanups run LIFO: before the cluster's Close
 	for t := range topics {
@@ -287,12 +308,15 @@ func flatten(m map[string][]int32) []TP {
 }
 
 func (g *G) callback(member, kind string, work time.Duration) func(context.Context, *kgo.Client, map[string][]int32) {
-	return func(_ context.Context, _ *kgo.Client, m map[string][]int32) {
+	return func(_ context.Context, cl *kgo.Client, m map[string][]int32) {
 		parts := flatten(m)
 		g.mu.Lock()
 		g.cbs = append(g.cbs, CB{Seq: g.stamp(), Member: member, Kind: kind, Parts: parts})
 		g.mu.Unlock()
 		g.X.Logf("callback %s %s START %v", member, kind, parts)
+		if g.InCallback != nil {
+			g.InCallback(member, kind, cl, parts)
+		}
 		if work > 0 && len(parts) > 0 {
 			time.Sleep(work)
 		}
@@ -629,7 +653,14 @@ func (g *G) Returned(member string) int {
 // before the promotion, hence before a commit built from it reaches the
 // proxy); a poll return is stamped after the call (the records became `dirty`
 // before that, and can be promoted only by a later poll of the same thread).
-func CheckCommits(polls []Poll, commits []Commit, violate func(key, format string, a ...any)) {
+//
+// lag=false (configurations that are NOT "default autocommit and default
+// revoke", e.g. an application that commits what it polled from its own
+// OnPartitionsRevoked) judges only (a), and counts a record as returned once
+// the poll that delivered it had STARTED before the delivery: such a commit is
+// built from `dirty`, which is set inside the poll, before the harness can
+// stamp the return.
+func CheckCommits(polls []Poll, commits []Commit, lag bool, violate func(key, format string, a ...any)) {
 	type retKey struct {
 		tp  TP
 		off int64
@@ -639,10 +670,14 @@ func CheckCommits(polls []Poll, commits []Commit, violate func(key, format strin
 		if p.Return == 0 {
 			continue
 		}
+		at := p.Return
+		if !lag {
+			at = p.Start
+		}
 		for _, r := range p.Recs {
 			k := retKey{r.TP, r.Off}
-			if s, ok := firstReturn[k]; !ok || p.Return < s {
-				firstReturn[k] = p.Return
+			if s, ok := firstReturn[k]; !ok || at < s {
+				firstReturn[k] = at
 			}
 		}
 	}
@@ -657,6 +692,9 @@ func CheckCommits(polls []Poll, commits []Commit, violate func(key, format strin
 					c.Member, c.Off, c.TP, c.Seq, c.Gen, off, s, FormatPolls(polls, c.TP, c.Seq))
 				break
 			}
+		}
+		if !lag {
+			continue
 		}
 		promoted := int64(0)
 		for _, p := range polls {
@@ -801,6 +839,9 @@ func (g *G) FetchCommitted() (map[TP]int64, error) {
 	var ferr error
 	resp.Each(func(o kadm.OffsetResponse) {
 		if o.Err != nil {
+			if g.Deleted[o.Topic] { // a deleted topic's offsets are not judged
+				return
+			}
 			ferr = fmt.Errorf("OffsetFetch %s/%d: %v", o.Topic, o.Partition, o.Err)
 			return
 		}
